@@ -281,9 +281,16 @@ def ligmark_hazards(glyphs):
     return out
 
 
-def outlined(glyphs):
+def outlined(glyphs, max_depth=None):
+    """Names of the glyphs that draw something (optionally only those nested <= max_depth, or
+    the shallowest ones when there is none)."""
     by = {g["name"]: g for g in glyphs}
-    return [g["name"] for g in glyphs if not draws_nothing(by, g["name"])]
+    names = [g["name"] for g in glyphs if not draws_nothing(by, g["name"])]
+    if max_depth is None or not names:
+        return names
+    d = {n: S.depth_of(by, n) for n in names}
+    lim = max(max_depth, min(d.values()))
+    return [n for n in names if d[n] <= lim]
 
 
 def gen(rng, idx, tier):
@@ -345,7 +352,7 @@ def gen(rng, idx, tier):
             x, y = _pt(rng, mode)
             new_glyph("emptycomb", width=0, anchors=[{"name": "_top", "x": x, "y": y},
                                                      {"name": "top", "x": x, "y": y + 100}])
-            other = rng.choice(outlined(glyphs))
+            other = rng.choice(outlined(glyphs, 2))
             new_glyph("markcomb", width=0, components=[comp(other)],
                       anchors=[{"name": "_top", "x": y, "y": x}, {"name": "top", "x": y, "y": 300}])
             new_glyph("emptycomb_markcomb", width=0,
@@ -380,7 +387,7 @@ def gen(rng, idx, tier):
         case["options"] = opts
         if stratum == "tf_sandwich":
             # included composite -> NON-included composite -> included outlined glyph
-            b = rng.choice(outlined(glyphs))
+            b = rng.choice(outlined(glyphs, 2))
             new_glyph("sw.mid", components=[comp(b)])
             new_glyph("sw.top", components=[comp("sw.mid")])
             extra = [g["name"] for g in glyphs
@@ -389,7 +396,7 @@ def gen(rng, idx, tier):
         elif stratum == "tf_mirror_matrix":
             # mirroring matrix, included composite whose (outlined) base is not included
             opts[rng.choice(["ScaleX", "ScaleY"])] = rng.choice([-100, -50, -150])
-            b = rng.choice(outlined(glyphs))
+            b = rng.choice(outlined(glyphs, 3))
             new_glyph("mm.top", components=[comp(b)])
             select = {"kind": "include", "names": ["mm.top"]}
         elif stratum == "tf_empty_advance":
@@ -503,7 +510,8 @@ def compare_render(ctx, name, ref, got, exact, dev, mech, extra=None):
         ctx.bump("contour_order_preserved" if same_order else "contour_order_changed")
     else:
         d = {"glyph": name, "exact": bool(exact), "allowed_deviation": float(dev),
-             "expected": S.show(ref), "got": S.show(got)}
+             "expected": S.show(ref), "got": S.show(got),
+             "equal_up_to_contour_direction": S.compare_tol(ref, got, dev, undirected=True)[0]}
         d.update(extra or {})
         ctx.bad(mech, **d)
     return ok
@@ -652,7 +660,9 @@ def check_transformations(ctx, before, after, included):
         results.append(sub)
         if not sub.violations:
             break
-    best = min(results, key=lambda s: len(s.violations))
+    # half-height origins: judge against the admissible matrix that explains the observation best
+    best = min(results, key=lambda s: (len(s.violations), sum(
+        1 for v in s.violations if v["detail"].get("equal_up_to_contour_direction") is False)))
     if len(mats) > 1 and not best.violations:
         ctx.bump("tf_half_origin_exact" if best is results[0] else "tf_half_origin_rounded")
     for k, v in best.counters.items():
@@ -953,7 +963,7 @@ def classify(v, case):
                         return "transformations_nonincluded_intermediate_double_transform"
             # (b) mirroring matrix and an included composite with a non-included base: the
             # component's determinant changes sign, so the resolved contours come out reversed
-            if o["ScaleX"] * o["ScaleY"] < 0:
+            if o["ScaleX"] * o["ScaleY"] < 0 and d.get("equal_up_to_contour_direction"):
                 for g in closure:
                     if any(c["base"] not in act for c in by[g]["components"]):
                         return "transformations_mirror_matrix_reverses_component_contours"
